@@ -6,7 +6,10 @@ package c20bed
 
 import (
 	"context"
+	"crypto/rsa"
 	"crypto/sha256"
+	"crypto/x509"
+	"encoding/pem"
 	"encoding/json"
 	"errors"
 	"fmt"
@@ -28,6 +31,7 @@ import (
 	"github.com/zitadel/oidc/v3/pkg/client"
 	"github.com/zitadel/oidc/v3/pkg/client/rp"
 	"github.com/zitadel/oidc/v3/pkg/client/rs"
+	"github.com/zitadel/oidc/v3/pkg/client/profile"
 	"github.com/zitadel/oidc/v3/pkg/client/tokenexchange"
 	httphelper "github.com/zitadel/oidc/v3/pkg/http"
 	"github.com/zitadel/oidc/v3/pkg/oidc"
@@ -70,6 +74,11 @@ func newStore() (*refstore.Store, op.Storage) {
 		IDLifetime: time.Hour}
 	st.UserinfoInIDToken = true // SetUserinfoFromScopes fills the userinfo (incl. sub) that CreateIDToken copies into the ID token
 	st.AddClient(c)
+	// deep round 4: the service account behind the JWT profile token sources (profile.NewJWTProfileTokenSource)
+	st.AddClient(&refstore.Client{ID: "service-user", App: op.ApplicationTypeWeb, Auth: oidc.AuthMethodPrivateKeyJWT,
+		Grants: []oidc.GrantType{oidc.GrantTypeBearer}, IDLifetime: time.Hour,
+		Keys: []refstore.ClientKey{{Kid: "key1", Pub: hx.Keys()[1].Pub}}})
+	st.AddUser("service-user", nil)
 	st.AddUser("user1", nil)
 	return st, st.With(refstore.Caps{CC: true, TE: true, Device: true})
 }
@@ -238,6 +247,7 @@ type Instance struct {
 	RP       rp.RelyingParty
 	RS       rs.ResourceServer
 	TE       tokenexchange.TokenExchanger
+	JP       profile.TokenSource // deep round 4: profile.NewJWTProfileTokenSource
 	KS       oidc.KeySet
 	Client   *http.Client // the HTTP client the instance uses (nil: package default)
 	Supplied []Supplied
@@ -583,6 +593,36 @@ func (w *World) BuildTE(opts []string, sh *Shared) *Instance {
 	return in
 }
 
+func optSliceOf[T any](T) []T { return nil }
+
+var JPOpts = []string{"profile.WithHTTPClient", "profile.WithStaticTokenEndpoint"}
+
+var jpKeyPEM []byte
+
+// BuildJP (deep round 4): a JWT profile token source.  The scope slice (spare capacity) and the *http.Client are the history's shared
+// objects: several sources / relying parties / resource servers of one history hold the very same ones.
+func (w *World) BuildJP(opts []string, sh *Shared) *Instance {
+	in := &Instance{Desc: Desc{ID: w.NextID(), Ty: "profile.jwtProfileTokenSource", Entry: "profile.NewJWTProfileTokenSource", Opts: opts}}
+	if jpKeyPEM == nil {
+		jpKeyPEM = pem.EncodeToMemory(&pem.Block{Type: "RSA PRIVATE KEY", Bytes: x509.MarshalPKCS1PrivateKey(hx.Keys()[1].Priv.(*rsa.PrivateKey))})
+	}
+	oo := optSliceOf(profile.WithHTTPClient(nil)) // the option type is a function over an unexported type: let the compiler name it
+	for _, o := range opts {
+		switch o {
+		case "profile.WithHTTPClient":
+			in.Client = sh.Client
+			in.Supplied = append(in.Supplied, Supplied{"http.Client", sh.Client})
+			oo = append(oo, profile.WithHTTPClient(sh.Client))
+		case "profile.WithStaticTokenEndpoint":
+			oo = append(oo, profile.WithStaticTokenEndpoint(w.Issuer, w.Issuer+"/oauth/token"))
+		}
+	}
+	key := append([]byte{}, jpKeyPEM...)
+	in.Supplied = append(in.Supplied, Supplied{"[]string", sh.Scopes}, Supplied{"[]byte", key})
+	in.JP, in.Err = profile.NewJWTProfileTokenSource(context.Background(), w.Issuer, "service-user", "key1", key, sh.Scopes, oo...)
+	return in
+}
+
 func (w *World) BuildKeySet(opts []string, sh *Shared) *Instance {
 	in := &Instance{Desc: Desc{ID: w.NextID(), Ty: "rp.remoteKeySet", Entry: "rp.NewRemoteKeySet", Opts: opts}}
 	in.Client = sh.Client
@@ -651,6 +691,15 @@ func (w *World) Observe(in *Instance) map[string]string {
 		out["token"] = in.TE.TokenEndpoint()
 		out["client"] = fmt.Sprintf("%p", in.TE.HttpClient())
 		out["redirects"] = w.FollowsRedirects(in.TE.HttpClient())
+	case in.JP != nil:
+		if g, ok := in.JP.(interface {
+			TokenEndpoint() string
+			HttpClient() *http.Client
+		}); ok {
+			out["token"] = g.TokenEndpoint()
+			out["client"] = fmt.Sprintf("%p", g.HttpClient())
+			out["redirects"] = w.FollowsRedirects(g.HttpClient())
+		}
 	case in.KS != nil:
 		w.KeySetProbe(in.KS) // the first verification downloads the keys; what is compared is the state after that
 		out["ref-token-fetches"] = w.KeySetProbe(in.KS)
